@@ -177,7 +177,7 @@ def run(res, tier, seed):
         if not r["ok"]:
             res.violation(what="MC_Resizer invariant violated (%s)" % cfg, detail=r["error"])
     if tier != "quick":
-        r = vlib.run_tlc_mc("MC_Resizer", cfg="MC_Resizer_full.cfg", workers=12, timeout=3600)
+        r = vlib.run_tlc_mc("MC_Resizer", cfg="MC_Resizer_full.cfg", workers=12, timeout=14400)
         res.add_mc(r, "all histories of 2 calls over the full alphabet")
         if not r["ok"]:
             res.violation(what="MC_Resizer invariant violated (full)", detail=r["error"])
